@@ -70,6 +70,7 @@ Definition toy_init_check (bw : tbw) (pf : tpf) : res unit :=
   let* c := components bw RInit pf (0, 0) in
   check (snd c <=? fst c) (E E_RiskEngineInitRejected).
 
+Definition toy_init (bw : tbw) (pf : tpf) := components bw RInit pf (0, 0).
 Definition toy_maint (bw : tbw) (pf : tpf) := components bw RMaint pf (0, 0).
 Definition toy_equity (bw : tbw) (pf : tpf) := components bw REquity pf (0, 0).
 
@@ -102,11 +103,18 @@ Definition toy_w_init (bw : tbw) (bank : Z) : Z :=
 Definition toy_price_low (bw : tbw) (bank : Z) : res Z :=
   match assoc bank bw with Some b => Ok (tb_price b) | None => Err (E E_InvalidBankAccount) end.
 
-(* classic liquidation: the toy family only contains healthy liquidatees *)
+(* classic liquidation up to the pre-liquidation check (check_pre_liquidation_condition_and_get_account_health
+   with the liability bank given); the toy family only contains liquidatees that fail it *)
 Definition toy_liquidate (abank lbank amount : Z) (bw : tbw) (pl pv : tpf) : res (tbw * tpf * tpf) :=
-  let* c := toy_maint bw pv in
-  let* h := ok_or (csub (fst c) (snd c)) (E E_MathError) in
-  if 0 <? h then Err (E E_HealthyAccount) else Err EPanic.
+  match assoc lbank pv with
+  | None => Err (E E_LendingAccountBalanceNotFound)
+  | Some (au, lu) =>
+      let* _ := check (1 <=? lu) (E E_NoLiabilitiesInLiabilityBank) in
+      let* _ := check (au <? 1) (E E_AssetsInLiabilityBank) in
+      let* c := toy_maint bw pv in
+      let* h := ok_or (csub (fst c) (snd c)) (E E_MathError) in
+      if 0 <? h then Err (E E_HealthyAccount) else Err EPanic
+  end.
 
 (* bankruptcy: the toy family only contains accounts that are not bankrupt *)
 Definition toy_bankrupt (signer bank : Z) (bw : tbw) (pf : tpf) : res (tbw * tpf) :=
